@@ -13,3 +13,10 @@ pub fn vinto_first<T: Copy>(v: Vec<T>) -> (r: Option<T>)
 {
     if v.len() > 0 { Some(v[0]) } else { None }
 }
+
+/// `slice.iter().copied().last()` (rule R7stackrev): the last element by value, None for an empty vector
+pub fn vlast_copied<T: Copy>(v: &Vec<T>) -> (r: Option<T>)
+    ensures r == (if v@.len() == 0 { None } else { Some(v@[v@.len() - 1]) }),
+{
+    if v.len() == 0 { None } else { Some(v[v.len() - 1]) }
+}
